@@ -51,6 +51,8 @@ class BuiltinMixin(object):
     impl = getattr(self, 'b_' + name, None)
     if impl is not None:
       return VBuiltin(name, lambda ex, st, a, k, _i=impl: _i(st, a, k))
+    if 'builtins.' + name in self.ctx.registry.externals:
+      return self.ctx.registry.externals['builtins.' + name](self)
     return None
 
   def external(self, dotted):
@@ -60,6 +62,8 @@ class BuiltinMixin(object):
     impl = getattr(self, 'x_' + dotted.replace('.', '_'), None)
     if impl is not None:
       return VBuiltin(dotted, lambda ex, st, a, k, _i=impl: _i(st, a, k))
+    if dotted in ('typing.Iterable', 'typing.Sequence', 'typing.Mapping', 'typing.Callable'):
+      return VClass('collections.abc.' + dotted.split('.')[1])
     if dotted == 'os.linesep':
       return VStr('\n')
     if dotted in ('numbers.Number', 'numbers.Integral', 'numbers.Real', 'collections.abc.Iterable', 'collections.abc.Mapping',
@@ -396,6 +400,36 @@ class BuiltinMixin(object):
     for x in b:
       st.axiom(z3.Implies(z3.Length(raw.t) >= 4 * k + 4, z3.And(x >= 0, x <= 255)))
     return [(st, VInt(b[0] + 256 * b[1] + 65536 * b[2] + 16777216 * b[3]))]
+
+  def concat_upto_fn(self, st, items):
+    """cu(i) = encode(items[0]) ++ ... ++ encode(items[i-1]) as an uninterpreted function with its two defining facts."""
+    f = z3.Function('concat_upto', z3.ArraySort(z3.IntSort(), Val), z3.IntSort(), z3.StringSort())
+    enc = z3.Function('chunk_bytes', Val, z3.StringSort())
+    i = z3.Int('cu_i')
+    ax = z3.And(f(items, 0) == z3.StringVal(''),
+                z3.ForAll([i], z3.Implies(i > 0, f(items, i) == z3.Concat(f(items, i - 1), enc(z3.Select(items, i - 1))))))
+    if ax.get_id() not in st.ax:
+      st.axiom(ax)
+    return f, enc
+
+  def b_concat_upto(self, st, args, kwargs):
+    lst, i = args
+    f, _ = self.concat_upto_fn(st, self.list_items(st, lst))
+    return [(st, VStr(f(self.list_items(st, lst), vv.as_intlike(i))))]
+
+  def b_chunk_bytes(self, st, args, kwargs):
+    """Spec function: what is written for one chunk (chunk.encode() for str chunks, the chunk itself for bytes)."""
+    enc = z3.Function('chunk_bytes', Val, z3.StringSort())
+    f = z3.Function('str_encode', z3.StringSort(), z3.StringSort())
+    t = self.to_val(st, args[0])
+    st.axiom(z3.Implies(Val.is_VY(t), enc(t) == Val.y(t)))          # bytes are written as they are
+    st.axiom(z3.Implies(Val.is_VS(t), enc(t) == f(Val.s(t))))       # str chunks are encoded
+    return [(st, VStr(enc(t)))]
+
+  def b_encoded(self, st, args, kwargs):
+    """Spec function: the bytes of str.encode() as a string value (same uninterpreted function the code model uses)."""
+    f = z3.Function('str_encode', z3.StringSort(), z3.StringSort())
+    return [(st, VStr(f(args[0].t)))]
 
   def b_bytesum(self, st, args, kwargs):
     a0 = args[0]
@@ -826,6 +860,8 @@ class BuiltinMixin(object):
 
   def m_str_encode(self, st, args, kwargs):
     f = z3.Function('str_encode', z3.StringSort(), z3.StringSort())
+    enc = z3.Function('chunk_bytes', Val, z3.StringSort())
+    st.axiom(enc(Val.VS(args[0].t)) == f(args[0].t))       # chunk_bytes of a str chunk is its encoding
     return [(st, VBytes(f(args[0].t)))]
 
   def m_str_strip(self, st, args, kwargs):
